@@ -94,7 +94,8 @@ fn gate_install() {
 
 fn gate_remove() {
     *gate::lock() = None;
-    gate::CHANGED.notify_all();
+    gate::RELEASED.notify_all();
+    gate::REACHED.notify_all();
 }
 
 fn gate_spawned() -> Vec<i32> {
@@ -107,7 +108,7 @@ fn gate_release(v: i32, points: &[u8]) {
             s.released.push((v, *p));
         }
     }
-    gate::CHANGED.notify_all();
+    gate::RELEASED.notify_all();
 }
 
 fn gate_reached(v: i32, point: u8) -> bool {
@@ -128,7 +129,7 @@ fn gate_wait(v: i32, point: u8) -> bool {
         if now >= deadline {
             return false;
         }
-        guard = gate::CHANGED.wait_timeout(guard, deadline - now).unwrap_or_else(|e| e.into_inner()).0;
+        guard = gate::REACHED.wait_timeout(guard, deadline - now).unwrap_or_else(|e| e.into_inner()).0;
     }
 }
 
@@ -538,41 +539,25 @@ pub fn generate(seed: u64, thorough: bool) -> Vec<String> {
             }
         }
     }
-    // 2. four edits over the same four documents, only the task spawned by an edit may finish inside
-    //    that edit's window; thorough additionally: four edits over {clean, notll, syntax} where
-    //    every unfinished task may finish inside any later window
-    let sp4 = spawns_of(&four);
-    for ds in all_doc_seqs(4, 4) {
-        for s in schedules(&ds, &sp4, true) {
-            let mode = if idx % 2 == 0 { "lazy" } else { "eager" };
-            out.push(format!("ls29 {dw} {s} {mode}"));
-            idx += 1;
-        }
-    }
-    if thorough {
-        let names3 = ["clean", "notll", "syntax"];
-        let dw3 = docs_word(&names3);
-        let sp3 = spawns_of(&names3);
-        for ds in all_doc_seqs(3, 4) {
-            for s in schedules(&ds, &sp3, false) {
+    // 2. four edits. quick: documents {clean, notll}, only the task spawned by an edit may finish
+    //    inside that edit's window. thorough: all four documents with own-task windows; {clean,
+    //    notll} where every unfinished task may finish inside any later window
+    let mut push_all = |names: &[&str], n: usize, own_only: bool, out: &mut Vec<String>| {
+        let dwn = docs_word(names);
+        let spn = spawns_of(names);
+        for ds in all_doc_seqs(names.len(), n) {
+            for s in schedules(&ds, &spn, own_only) {
                 let mode = if idx % 2 == 0 { "lazy" } else { "eager" };
-                out.push(format!("ls29 {dw3} {s} {mode}"));
+                out.push(format!("ls29 {dwn} {s} {mode}"));
                 idx += 1;
             }
         }
-    }
-    // 2b. thorough: five edits over {clean, notll}, own-task windows only
+    };
     if thorough {
-        let names5 = ["clean", "notll"];
-        let dw5 = docs_word(&names5);
-        let sp5 = spawns_of(&names5);
-        for ds in all_doc_seqs(2, 5) {
-            for s in schedules(&ds, &sp5, true) {
-                let mode = if idx % 2 == 0 { "lazy" } else { "eager" };
-                out.push(format!("ls29 {dw5} {s} {mode}"));
-                idx += 1;
-            }
-        }
+        push_all(&four, 4, true, &mut out);
+        push_all(&["clean", "notll"], 4, false, &mut out);
+    } else {
+        push_all(&["clean", "notll"], 4, true, &mut out);
     }
     // 3. random longer histories over the whole catalogue
     let nrand = if thorough { 3000 } else { 300 };
